@@ -7,7 +7,7 @@
  *    intermediate image has the other channel count, colour channels copied, new alpha == max
  *  4 set_channel_width(CW2) then back to CW (widen-then-narrow when CW2 > CW): identity; widening replicates the value
  *  5 copy constructor is deep: writing into the copy leaves the original unchanged and vice versa; copy equals original
- *  6 copy assignment into an existing image of another size: deep, equal
+ *  6 copy assignment into an existing image of another size (or, with ASSIGN_CW, of the same extent but another channel width): deep, equal
  *  7 move constructor: target has the pixels, source is left empty (0x0) */
 #include "c07.h"
 #define CH (3 + ALPHA)
@@ -91,7 +91,12 @@ void harness(void) {
 #if KIND == 5
   r1 = w_copy(1, 0);
 #else
+#ifdef ASSIGN_CW
+  /* destination already allocated with the SAME extent and alpha mode but another channel width (its buffer has another size) */
+  ASSERT(w_new(1, W, H, ALPHA, ASSIGN_CW) == 0, "constructor");
+#else
   ASSERT(w_new(1, 1, 2, !ALPHA, 8) == 0, "constructor");
+#endif
   r1 = w_assign(1, 0);
 #endif
   ASSERT(r1 == 0, "copy does not throw");
